@@ -393,7 +393,11 @@ func disciplineCheck(s *Scn, fields ...string) {
 	verif.GuardFields(s.Fn, "prices", "mutExecution", fields...)
 	verif.MonitorOn(true)
 	s.Fn.SetNewGasConfig(schedule("g2"))
+	// an execution holds only the read lock: it writes nothing that other executions share (own
+	// state of the function object, package-level prefixes and constants, spare capacity included)
+	verif.WatchObject(s.Fn, "function-object")
 	s.Run()
+	verif.WatchOn(false)
 	verif.MonitorOn(false)
 	verif.Reach("ran", true)
 }
@@ -518,4 +522,99 @@ func C19_FlagLinearizable() {
 	s21, a2 := spec(s2, opA)
 	verif.Assert("linearizable", verif.Or(verif.And(rA == a1, rB == b1, final == s12), verif.And(rA == a2, rB == b2, final == s21)))
 	verif.Reach("done", true)
+}
+
+func init() {
+	reg("C19_IntegersLinearizable", C19_IntegersLinearizable)
+}
+
+// C19_IntegersLinearizable: Set || Set, Set || Get and Get || Get on the atomic Uint32, Uint64,
+// Int64 and String: what the reads return and the final value are those of one of the two
+// sequential orders (no update is lost, no torn or stale-beyond-order value is read).
+func C19_IntegersLinearizable() {
+	kind := verif.Choose("type", 4)
+	v0, x, y := verif.U64("v0"), verif.U64("x"), verif.U64("y")
+	var u32 atomic.Uint32
+	var u64 atomic.Uint64
+	var i64 atomic.Int64
+	var str atomic.String
+	names := []string{"p", "q", "r"}
+	verif.AtomicFields(&u32, "Uint32", "value")
+	verif.AtomicFields(&u64, "Uint64", "value")
+	verif.AtomicFields(&i64, "Int64", "value")
+	verif.MonitorOn(true)
+	set := func(v uint64) {
+		switch kind {
+		case 0:
+			u32.Set(uint32(v))
+		case 1:
+			u64.Set(v)
+		case 2:
+			i64.Set(int64(v))
+		default:
+			str.Set(names[v%3])
+		}
+	}
+	get := func() uint64 {
+		switch kind {
+		case 0:
+			return uint64(u32.Get())
+		case 1:
+			return u64.Get()
+		case 2:
+			return uint64(i64.Get())
+		}
+		s := str.Get()
+		for i, n := range names {
+			if s == n {
+				return uint64(i)
+			}
+		}
+		return 99
+	}
+	norm := func(v uint64) uint64 {
+		switch kind {
+		case 0:
+			return uint64(uint32(v))
+		case 3:
+			return v % 3
+		}
+		return v
+	}
+	if kind == 3 {
+		verif.Assert("string-initially-empty", str.Get() == "")
+	}
+	set(v0)
+	opA, opB := verif.Choose("opA", 2), verif.Choose("opB", 2) // 0 = Set, 1 = Get
+	var rA, rB uint64
+	verif.Spawn(func() {
+		if opA == 0 {
+			set(x)
+		} else {
+			rA = get()
+		}
+	})
+	verif.Spawn(func() {
+		if opB == 0 {
+			set(y)
+		} else {
+			rB = get()
+		}
+	})
+	verif.Join()
+	final := get()
+	spec := func(st uint64, op int, v uint64) (uint64, uint64) {
+		if op == 0 {
+			return norm(v), 0
+		}
+		return st, st
+	}
+	s1, a1 := spec(norm(v0), opA, x)
+	s12, b1 := spec(s1, opB, y)
+	s2, b2 := spec(norm(v0), opB, y)
+	s21, a2 := spec(s2, opA, x)
+	verif.Assert("linearizable", verif.Or(verif.And(rA == a1, rB == b1, final == s12), verif.And(rA == a2, rB == b2, final == s21)))
+	verif.Reach("done", true)
+	verif.Reach("set-set", opA == 0 && opB == 0)
+	verif.Reach("string", kind == 3)
 }
